@@ -396,9 +396,6 @@ def _has_go(text):
 
 
 CLASS_PRED = {
-    # format() right-strips every statement and joins them with '': after a GO batch separator (a terminator that is
-    # not ';') the next statement is glued to it, so a second run sees different tokens (C06-GO-fusion)
-    'go-separator-fusion': lambda f: f.get('kind', '').startswith('not_fixed_point:') and _has_go(_txt_in(f)),
     # strip_whitespace is not a fixed point: (a) a line break before a comma is removed AFTER blanks were collapsed
     # ('a  ,b' -> 'a ,b' -> 'a,b'); (b) a comment swallows the line breaks that follow it
     'sw-not-fixed-point-comma-or-comment': lambda f: f.get('kind') == 'not_fixed_point:sw'
